@@ -1432,20 +1432,30 @@ private:
       return; // No log file yet
     }
 
+    // Offset just past the last completely framed record. If replay stops early
+    // (torn tail left by a crash inside an append, or a garbage length), the bytes
+    // from here on can never be replayed; they are cut off below so that records
+    // appended from now on do not end up unreachable behind them.
+    std::streamoff replayedEnd = 0;
+    bool stoppedEarly = false;
+
     while (log.peek() != EOF)
     {
       uint32_t totalLen = 0;
       if (!log.read(reinterpret_cast<char *>(&totalLen), sizeof(totalLen)) || totalLen < 10 ||
           totalLen > 100 * 1024 * 1024)
       {
+        stoppedEarly = true;
         break; // Invalid or corrupted entry
       }
 
       std::vector<std::uint8_t> buffer(totalLen);
       if (!log.read(reinterpret_cast<char *>(buffer.data()), totalLen))
       {
+        stoppedEarly = true;
         break; // Incomplete entry
       }
+      replayedEnd += static_cast<std::streamoff>(sizeof(totalLen)) + static_cast<std::streamoff>(totalLen);
 
       if (!validateLogEntry(buffer, totalLen))
       {
@@ -1571,6 +1581,19 @@ private:
       {
         _kv.erase(key);
         _expiry.erase(key);
+      }
+    }
+
+    if (stoppedEarly)
+    {
+      // openLogFile() appends: without this, every record written after this
+      // recovery would sit behind the unreadable tail and be lost at the next load.
+      log.close();
+      std::error_code ec;
+      std::filesystem::resize_file(_logPath, static_cast<std::uintmax_t>(replayedEnd), ec);
+      if (ec)
+      {
+        throw KVStoreException("Failed to cut torn tail off the log file: " + ec.message());
       }
     }
 
